@@ -551,6 +551,7 @@ MUTANTS = [
     M("new-parse-keeps-first-consume", _IP, "        self._first_consume = True\n        self._incomplete.clear()", "        self._incomplete.clear()", "R12-c"),
 ]
 TWINS = [
+    M("twin-forest-key-renamed", _P, "cache_key", "memo_key", None, count=4),
     M("twin-forest-memo-behind-helpers", _P, "        cache_key = (word, start, mode, hookin_parent, starter_bit)\n        forest: list[DerivationTree]\n        if cache_key in self._cache:\n            forest = self._cache[cache_key]\n",
       "        cache_key = (word, start, mode, hookin_parent, starter_bit)\n        forest: list[DerivationTree]\n        cached = self._cached_forest(cache_key)\n        if cached is not None:\n            forest = cached\n", None,
       more=(("        self._cache: dict[\n            tuple[\n                str | bytes,\n                NonTerminal,\n                ParsingMode,\n                Optional[DerivationTree],\n                int,\n            ],\n            list[DerivationTree],\n        ] = {}\n",
